@@ -162,7 +162,7 @@ func init() {
 		if dst != "ok" {
 			return fmt.Sprintf("E=ok D=%s dt=- D[-] %s", dst, serObs("S", src))
 		}
-		first := fmt.Sprintf("E=ok D=ok dt=%s %s %s", dtName(d.Dtype()), serObs("D", d), serObs("S", src))
+		first := fmt.Sprintf("E=ok D=ok dt=%s %s %s F=%s", dtName(d.Dtype()), serObs("D", d), serObs("S", src), flagsConsistent(d))
 		// the bytes are the caller's: a later encode must not change them, and decoding into a
 		// *Dense that already holds another (masked) tensor must give the same result as decoding
 		// into a fresh one
@@ -178,7 +178,7 @@ func init() {
 			used := new(tensor.Dense)
 			if _, ust := decodeInto(format, other.Dtype(), ob, used); ust == "ok" {
 				if d2, st2 := decodeInto(format, src.Dtype(), b, used); st2 == "ok" {
-					second := fmt.Sprintf("E=ok D=ok dt=%s %s %s", dtName(d2.Dtype()), serObs("D", d2), serObs("S", src))
+					second := fmt.Sprintf("E=ok D=ok dt=%s %s %s F=%s", dtName(d2.Dtype()), serObs("D", d2), serObs("S", src), flagsConsistent(d2))
 					if second != first {
 						return first + " !decode-into-used-tensor-differs:" + serObs("D", d2)
 					}
@@ -232,6 +232,38 @@ func init() {
 }
 
 var ptrPool [64]byte
+
+// flagsConsistent: the decoded tensor's data-order / contiguity flags must describe its strides -
+// operations that decide on the flags (a safe elementwise operation, Clone + Materialize) must see
+// the same elements as At does.  "same" | "differs"
+func flagsConsistent(d *tensor.Dense) (s string) {
+	defer func() {
+		if e := recover(); e != nil {
+			s = "differs"
+		}
+	}()
+	want := serObs("", d)
+	if c, ok := d.Clone().(*tensor.Dense); !ok || serObs("", c) != want {
+		return "differs"
+	}
+	switch d.Dtype() {
+	case tensor.Float64, tensor.Float32, tensor.Int, tensor.Int64, tensor.Int32, tensor.Int16, tensor.Int8, tensor.Uint8, tensor.Uint16, tensor.Uint32, tensor.Uint64, tensor.Uint:
+		if d.IsMasked() || d.IsScalar() {
+			return "same"
+		}
+		r, err := tensor.Mul(d, tokVal(dtName(d.Dtype()), 1))
+		if err != nil {
+			return "same"
+		}
+		rd := r.(*tensor.Dense)
+		a, b := serObs("", rd), want
+		// (compare elements only: the result carries no mask)
+		if a[:strings.LastIndex(a, "|K:")] != b[:strings.LastIndex(b, "|K:")] {
+			return "differs"
+		}
+	}
+	return "same"
+}
 
 var serFormats = []string{"gob", "npy", "csv", "pb", "fb"}
 
